@@ -1186,7 +1186,7 @@ def gen_par_jobs(seed, njobs, family, nrounds=3):
         if family == "parpanic":
             jobs[-1]["inject"] = rng.choice([3, 5, 8, 12, 17, 23, 30, 40])
         if family == "parpaniccancel":
-            jobs[-1]["inject"] = rng.choice([4, 6, 8, 10, 12, 15, 18, 22, 26, 30, 36, 44])
+            jobs[-1]["inject"] = rng.choice([4, 6, 8, 10, 12, 15, 18, 22, 26, 30, 36, 44, 55, 70, 90, 120, 160])
     return jobs
 
 
